@@ -52,10 +52,12 @@ CLAIMED.update({
     "C15": dict(
         category="model_checking", design_ref="DESIGN.md 5 (C06/C15/C02)",
         technique="TLA+ spec Rib.tla (incrementally maintained counters vs recount, CountersOK/TotalsOK invariants) exhausted by TLC "
-                  "+ replay on the real Table with a recount after every step",
+                  "+ replay on the real Table with a recount after every step; SessionLimit.tla (per-family limit counters of one session, one "
+                  "action per rx_update call) exhausted by TLC + its transitions replayed on a real PeerSession",
         text="TLC proves the incremental counter rules equal a recount in every reachable state of the bounded model (several "
              "sessions of one peer, add-path, filtered paths, limits from 0); every replayed step recounts the real table and "
-             "compares peer stats, the per-session limit counter and the table totals.",
+             "compares peer stats, the per-session limit counter and the table totals; at the session level every family's counter, the "
+             "limit verdict of rx_update and a recount of the RIB are compared with SessionLimit.tla after every UPDATE.",
         note=RIB_NOTE),
     "C11": dict(
         category="model_checking", design_ref="DESIGN.md 5 (C11)",
@@ -91,7 +93,8 @@ CLAIMED.update({
     "C13": dict(
         category="model_checking", design_ref="DESIGN.md 5 (C13)",
         technique="TLA+ spec RtrClient.tla (client + conforming cache + second cache) exhausted by TLC + every transition replayed on "
-                  "the real RpkiClient::serve_inner over tokio::io::duplex with model-chosen fragmentation",
+                  "the real RpkiClient::serve_inner over tokio::io::duplex with model-chosen fragmentation; operator-ended sessions through "
+                  "the real API; real-thread stress of concurrent caches (each table operation is one atomic action of the model)",
         text="The model is finite and fully explored; every transition (PDU type x fragmentation point x state) is executed on the "
              "real client with a real TableManager and the VRPs installed per cache compared after every PDU, including progress "
              "past PDU types the client does not use and removal at stream end.",
@@ -119,13 +122,14 @@ CLAIMED.update({
     "C09": dict(
         category="exploration", design_ref="DESIGN.md 5 (C09)",
         technique="TLA+ function-style spec Propagation.tla: the full case matrix with Expected per case enumerated by TLC, each case "
-                  "executed on the real process_nlri_change (both export branches) with a recording sink; inbound loop table "
+                  "executed on the real process_nlri_change (both export branches, the ADD-PATH one also with a companion path) with a "
+                  "recording sink; inbound loop table "
                   "replayed on real sessions",
-        text="The matrix source kind x receiver role x confederation x AS_PATH shape x attribute-presence vector x LLGR x same-peer is "
+        text="The matrix source kind (API-originated, kernel, eBGP, iBGP, RR client, RS client, confed) x receiver role x confederation x AS_PATH shape x attribute-presence vector x LLGR x same-peer is "
              "finite; TLC enumerates it completely (exhaustive: true) and the real export function is run on every case and compared "
              "field by field with what the statement requires; fields the statement leaves open are not compared.",
         note="Trusted: the transcription of the statement into Expected (checked for internal consistency by TLC); concrete attribute "
-             "values are one representative per class; export policy actions are not part of the matrix."),
+             "values are one representative per class."),
 })
 
 CLAIMED.update({
@@ -210,7 +214,8 @@ CLAIMED.update({
         technique="TLA+ Subscribe.tla (session threads and subscriber at shard-lock granularity; invariants Reconstructs and "
                   "LastEventIsCurrent checked by TLC over all interleavings, deviation LoadBeforeLock shown to violate them); random "
                   "complete interleavings replayed on the real TableManager with real OS threads parked at cfg-guarded scheduling "
-                  "points before every shard-lock acquisition; per-step RIB comparison and final fold-vs-RIB comparison",
+                  "points before every shard-lock acquisition; per-step RIB comparison and final fold-vs-RIB comparison; Rib.tla behaviours "
+                  "through the real TableManager with sequential subscribers; real-thread stress of concurrent subscribe / unsubscribe",
         text="Exhaustive in the model for 5 configurations (2 session threads x 1-3 calls, with/without session end, 1-2 subscribers, "
              "2 shards, 3 keys, pre/post-policy views); 1250 (2500) complete interleavings replayed on the real code, every other one "
              "with a next hop reported unreachable; the real RIB is compared with the model after every step.",
